@@ -232,6 +232,10 @@ def check(run):
             from . import c16_status
             c16_status.replay(run, rp)
             return
+        if rp.get("engine") == "errmsg-ax":
+            from . import c16_ax
+            c16_ax.replay(run, rp)
+            return
         if rp.get("engine") == "errmsg-api":
             from . import c16_api
             c16_api.replay(run, rp)
@@ -274,3 +278,5 @@ def check(run):
     c16_status.check(run)
     from . import c16_api
     c16_api.check(run)
+    from . import c16_ax
+    c16_ax.check(run)
